@@ -4,6 +4,7 @@ package mbapp
 
 import (
 	"context"
+	"time"
 
 	"go.brendoncarroll.net/p2p"
 )
@@ -26,3 +27,15 @@ func VerifSetDisableFastPath(v bool) { disableFastPath = v }
 
 // VerifExtractErrorCode exposes the mapping from a handler's return value to (error code, body length).
 func VerifExtractErrorCode(n int) (uint8, int) { return extractErrorCode(n) }
+
+// VerifCollectorRun drives one reassembly collector with a list of parts: whether each addPart reported an error,
+// whether the collector is complete afterwards, and a copy of its buffer.
+func VerifCollectorRun(partCount, totalSize int, idx []int, data [][]byte) (errs []bool, complete bool, buf []byte) {
+	c := newCollector(partCount, totalSize, time.Time{})
+	for i := range idx {
+		errs = append(errs, c.addPart(idx[i], data[i]) != nil)
+	}
+	complete = c.isComplete()
+	c.withBuffer(func(b []byte) error { buf = append([]byte{}, b...); return nil })
+	return errs, complete, buf
+}
